@@ -1,6 +1,7 @@
 package props
 
 import (
+	"go/token"
 	"fmt"
 	"go/ast"
 	"go/constant"
@@ -374,11 +375,25 @@ func checkConnectors(c *fw.Ctx) {
 	var sites []site
 	for _, f := range pkg.Syntax {
 		for _, d := range f.Decls {
-			fd, ok := d.(*ast.FuncDecl)
-			if !ok || fd.Body == nil {
+			var body ast.Node
+			fname := "<package level>"
+			switch x := d.(type) {
+			case *ast.FuncDecl:
+				if x.Body == nil {
+					continue
+				}
+				body, fname = x.Body, x.Name.Name
+			case *ast.GenDecl:
+				if x.Tok != token.VAR {
+					continue
+				}
+				body = x // package-level variables initialised with a connector literal
+			default:
 				continue
 			}
-			ast.Inspect(fd.Body, func(n ast.Node) bool {
+			fd := struct{ Name struct{ Name string } }{}
+			fd.Name.Name = fname
+			ast.Inspect(body, func(n ast.Node) bool {
 				cl, ok := n.(*ast.CompositeLit)
 				if !ok {
 					return true
